@@ -192,7 +192,8 @@ example : FInv (fun _ => 0) (init demoWorld rfl) :=
    ⟨fun fid _ => rfl,
     ⟨fun f => by simp [init, demoWorld], fun f _ => by simp [init, demoWorld],
      fun f hf => by simp [init, demoWorld] at hf⟩,
-    ValidAll.nil _, fun f => ⟨rfl, rfl⟩⟩⟩
+    ValidAll.nil _, fun f => ⟨rfl, rfl⟩⟩,
+   fun f => ⟨Int.le_refl _, fun hf => by simp [init, demoWorld] at hf⟩⟩
 
 example : Acct (fun _ => 0) (init demoWorld rfl) := fun _ => ⟨rfl, rfl, rfl⟩
 
